@@ -150,6 +150,26 @@ static std::vector<u8> make_data(u64 len, int pat, u64 dseed) {
     case 2: for (u64 i = 0; i < len; i++) d[i] = (u8) (i + dseed); break;
     case 3: if (len) d[r.below(len)] = (u8) (1 + r.below(255)); break;
     case 4: std::fill(d.begin(), d.end(), 0xff); break;
+    case 5: case 6: {
+        // random bytes whose standard CRC-32 is exactly 0 (pat 5) or 0xffffffff (pat 6): special values a stored checksum
+        // can take. The CRC is affine over GF(2) in the last four bytes: solve for them.
+        for (u64 i = 0; i < len; i++) d[i] = (u8) r.next();
+        if (len < 4) break;
+        u32 target = pat == 5 ? 0u : 0xffffffffu;
+        memset(&d[len - 4], 0, 4);
+        u32 c0 = ref::crc_std(d.data(), len);
+        u32 col[32];
+        for (int b = 0; b < 32; b++) { d[len - 4 + b / 8] = (u8) (1u << (b % 8)); col[b] = ref::crc_std(d.data(), len) ^ c0; d[len - 4 + b / 8] = 0; }
+        // gaussian elimination: find x with XOR_{b in x} col[b] == target ^ c0
+        u32 want = target ^ c0, x = 0; u32 basis[32] = {0}, comb[32] = {0};
+        for (int b = 0; b < 32; b++) {
+            u32 v = col[b], cm = 1u << b;
+            for (int t = 31; t >= 0 && v; t--) if ((v >> t) & 1) { if (!basis[t]) { basis[t] = v; comb[t] = cm; v = 0; break; } v ^= basis[t]; cm ^= comb[t]; }
+        }
+        for (int t = 31; t >= 0 && want; t--) if ((want >> t) & 1) { if (!basis[t]) break; want ^= basis[t]; x ^= comb[t]; }
+        for (int b = 0; b < 32; b++) if ((x >> b) & 1) d[len - 4 + b / 8] |= (u8) (1u << (b % 8));
+        break;
+    }
     default:
         for (u64 i = 0; i + 8 <= len; i += 8) { u64 v = r.next(); memcpy(&d[i], &v, 8); }
         for (u64 i = len & ~7ULL; i < len; i++) d[i] = (u8) r.next();
@@ -435,6 +455,7 @@ static void op_put(World &W, const Json &op) {
         const u8 *pl = f + ref::HDR;
         if (s.cfg.ct == ref::CT_CRC32 && (u64) F.size + ref::HDR <= flen) {
             u32 want = legacy ? ref::crc_legacy(pl, F.size) : ref::crc_std(pl, F.size);
+            if (F.chksum0 == 0 || F.chksum0 == 0xffffffffu) W.probe("put.special-stored-crc");
             if (F.chksum0 != want) W.viol("C10", legacy ? "encode/payload-crc-not-legacy" : "encode/payload-crc-wrong", "fragment " + std::to_string(i) + ": stored payload checksum differs from the CRC-32 model");
         }
         u32 wantm = legacy ? ref::crc_legacy(f, ref::META) : ref::crc_std(f, ref::META);
